@@ -7,6 +7,8 @@ chunks <hex>|<hex>|… calls=<k> [delay=<µs>]  -> lines=<hex>,<hex>,… utf8=<o
 old chunks <hex>|… calls=<k>                 -> the same through the model of the pinned code (replay only)
 ```
 `-` is the empty byte string (an empty chunk, an empty line); with `calls=0` both fields are `none`.
+A chunk may be written as `+`-joined parts, a part `HH*N` being N copies of the byte HH; a returned line
+longer than 256 KiB is answered as `L<length>:<FNV-1a 64 digest>` instead of hex.
 `delay` only concerns the feeder of the implementation side and is ignored here: the model's
 answer does not depend on time.  The answer is what `k` successive calls of the fixed `read_line`
 return when the chunks arrive one after the other, each after the previous one has been read
@@ -15,8 +17,32 @@ completely; `utf8` says for each returned line whether it is valid UTF-8.
 namespace NaijaVerif.Driver.ReadLineD
 open NaijaVerif.ReadLine NaijaVerif.Driver
 
+/-- A chunk: `+`-joined parts, each plain hex (`-` = empty) or a run `HH*N` (N copies of the byte). -/
+def parsePart (p : String) : Option (List Nat) :=
+  match p.splitOn "*" with
+  | [b, n] =>
+      match unhex b, n.toNat? with
+      | some [x], some k => some (List.replicate k x)
+      | _, _ => none
+  | _ => unhex p
+
+def parseChunk (s : String) : Option (List Nat) :=
+  ((s.splitOn "+").mapM parsePart).map List.flatten
+
 def parseChunks (s : String) : Option (List (List Nat)) :=
-  (s.splitOn "|").mapM unhex
+  (s.splitOn "|").mapM parseChunk
+
+/-- FNV-1a, 64 bit (long lines are answered by length and digest). -/
+def fnv64 (bs : List Nat) : Nat :=
+  bs.foldl (fun h b => ((h ^^^ b) * 1099511628211) % 18446744073709551616) 14695981039346656037
+
+def hex16 (n : Nat) : String :=
+  String.ofList ((List.range 16).reverse.map (fun i => hexChar (n / 16 ^ i % 16)))
+
+def longLine : Nat := 256 * 1024
+
+def showLine (l : List Nat) : String :=
+  if l.length > longLine then s!"L{l.length}:{hex16 (fnv64 l)}" else hex l
 
 def parseCalls (s : String) : Option Nat :=
   if s.startsWith "calls=" then (s.drop 6).toString.toNat? else none
@@ -26,7 +52,7 @@ def render (r : Option (List (List Nat))) : String :=
   | none => "out-of-fuel"
   | some [] => "lines=none utf8=none"
   | some ls =>
-      "lines=" ++ ",".intercalate (ls.map hex) ++ " utf8=" ++
+      "lines=" ++ ",".intercalate (ls.map showLine) ++ " utf8=" ++
         String.ofList (ls.map (fun l => if validUtf8 l then '1' else '0'))
 
 def answer (ws : List String) : String :=
